@@ -46,7 +46,8 @@ def LockOut (tbl : Table) (fs : FlagMap) (inpW : Bytes) (δ : Nat) (K : Nat → 
    | some (.endOfInput c), some (.endOfInput c') =>
        eoi = true ∧ ∃ d', c' + d' = c + δ ∧ K d' rs.1.x.sink rw.1.x.sink ∧ rw.1.x.sim = rs.1.x.sim ∧
          rs.1.x.prevConsumed = rw.1.x.prevConsumed + δ ∧
-         (rs.1.c.isLast = false → BCore tbl fs inpW d' d' 0 rs.1 rw.1)
+         (rs.1.c.isLast = false → BCore tbl fs inpW d' d' 0 rs.1 rw.1) ∧
+         (rs.1.c.isLast = true → d' = 0)
    | some (.directive dr bm), some (.directive dr' bm') =>
        SigRel δ 0 (some (.directive dr bm)) (some (.directive dr' bm')) ∧
        ∃ ab'', MRel δ 0 0 ab'' .none rs.1 rw.1 ∧ K 0 rs.1.x.sink rw.1.x.sink ∧ ScanIdle rs.1.r
